@@ -420,5 +420,5 @@ func propC08(c c08Case) (ev.Outcome, error) {
 }
 
 func TestC08(t *testing.T) {
-	ev.Check(t, ev.Get("C08"), ev.Scale(1200, 5000), genC08, propC08)
+	ev.Check(t, ev.Get("C08"), ev.Scale(2400, 6000), genC08, propC08)
 }
